@@ -110,7 +110,7 @@ theorem mem_filterPackages {cands : List Pkg} {dq : List Nat} {version : Text} {
     · simp only [List.mem_filter, Bool.and_eq_true, Bool.not_eq_true'] at h
       exact ⟨h.1.2.1, h.1.1⟩
 
-theorem foldl_min_mem' (cmp : Pkg → Pkg → Ordering) (xs : List Pkg) (x : Pkg) :
+theorem foldl_minFunc_mem (cmp : Pkg → Pkg → Ordering) (xs : List Pkg) (x : Pkg) :
     xs.foldl (fun m y => if cmp y m = .lt then y else m) x ∈ x :: xs := by
   induction xs generalizing x with
   | nil => simp
@@ -131,7 +131,7 @@ theorem mem_of_minFunc {cmp : Pkg → Pkg → Ordering} {l : List Pkg} {b : Pkg}
   | nil => simp [minFunc] at h
   | cons x xs =>
     simp only [minFunc, Option.some.injEq] at h
-    rw [← h]; exact foldl_min_mem' cmp xs x
+    rw [← h]; exact foldl_minFunc_mem cmp xs x
 
 theorem lowestOption_mem {opts : List (Text × List Pkg)} {e : Text × List Pkg}
     (h : lowestOption opts = some e) : e ∈ opts := by
